@@ -47,4 +47,10 @@ CHECKS = {
         "level_note": "Red-zone tools cannot see intra-allocation overruns (matrix/trie live inside the dictionary buffer) - hooks and debug assertions cover those; odd-address loads give real allocation boundaries. Known findings D9, D10, D19 are reported as KNOWN-FINDING.",
         "technique": "panic/exit-status monitors + bounds hooks + expected-outcome oracle under hostile workloads; valgrind, ASan, Miri stages",
     },
+    "C07": {
+        "level_text": "Exploration with an exhaustive inner sweep: all scalar values alone, and seeded rewrite tables x strings, are pushed through the real input-text plugins and compared with an independent leftmost-longest / per-character reference; a relational monitor compares the optimised and the general code path on the same span. Held on the counted inputs.",
+        "design_ref": "DESIGN.md 6/C07",
+        "level_note": "Trusts the reference normaliser (harness/src/normref.rs) and the Unicode tables of std / unicode-normalization.",
+        "technique": "reference-model monitor + metamorphic (fast-path vs general-path) monitor; exhaustive code-point sweep",
+    },
 }
